@@ -134,7 +134,7 @@ func (h Header) ContainsObject(obj parser.QueryExpression) (int, bool) {
 			continue
 		}
 
-		if !strings.EqualFold(f.Identifier, column) {
+		if !equalFoldExceptStringLiterals(f.Identifier, column) {
 			continue
 		}
 
@@ -268,4 +268,41 @@ func (h Header) Copy() Header {
 		header[i] = h[i]
 	}
 	return header
+}
+
+// equalFoldExceptStringLiterals compares the printed forms of two expressions. Keywords, function
+// names and identifiers are case-insensitive, the contents of string literals are not.
+func equalFoldExceptStringLiterals(s1 string, s2 string) bool {
+	r1 := []rune(s1)
+	r2 := []rune(s2)
+	if len(r1) != len(r2) {
+		return false
+	}
+
+	inLiteral := false
+	escaped := false
+	for i := range r1 {
+		if inLiteral {
+			if r1[i] != r2[i] {
+				return false
+			}
+			switch {
+			case escaped:
+				escaped = false
+			case r1[i] == '\\':
+				escaped = true
+			case r1[i] == '\'':
+				inLiteral = false
+			}
+			continue
+		}
+
+		if r1[i] != r2[i] && !strings.EqualFold(string(r1[i]), string(r2[i])) {
+			return false
+		}
+		if r1[i] == '\'' {
+			inLiteral = true
+		}
+	}
+	return true
 }
